@@ -58,8 +58,15 @@ func VF_C09_fold() {
 	// every file leaves a marker named after itself in an appended list:
 	// a decorator, or (a file without a decorators key) a tag on service "s"
 	byTag := map[string]bool{}
+	// the last file may hold no YAML document at all (empty or comments only):
+	// it is read like any other file and contributes nothing
+	VfEnv.Empty = map[string]bool{}
+	empty2 := vfBool("emptyfile")
 	for i, n := range f {
-		if i == 1 && vfBool("tagfile") {
+		if i == 2 && empty2 {
+			VfEnv.Inputs[n] = input.Input{}
+			VfEnv.Empty[n] = true
+		} else if i == 1 && vfBool("tagfile") {
 			VfEnv.Inputs[n] = vfTagMarker(n)
 			byTag[n] = true
 		} else {
@@ -68,8 +75,13 @@ func VF_C09_fold() {
 	}
 	VfEnv.GlobFiles = [][]string{vfGlobChoice(f), vfGlobChoice(f)}
 	var want, wantTags []string
+	matched := 0
 	for _, g := range VfEnv.GlobFiles {
 		for _, n := range vfSorted2(g) {
+			matched++
+			if VfEnv.Empty[n] {
+				continue
+			}
 			if byTag[n] {
 				wantTags = append(wantTags, n)
 			} else {
@@ -105,7 +117,7 @@ func VF_C09_fold() {
 			dup = vfOr(dup, a == b)
 		}
 	}
-	vfAssert((err != nil) == vfOr(dup, len(want)+len(wantTags) == 0), "rejected iff no file was processed or a file matched two patterns")
+	vfAssert((err != nil) == vfOr(dup, matched == 0), "rejected iff no file was processed or a file matched two patterns")
 	vfReach("C09_fold")
 }
 
